@@ -136,59 +136,7 @@ func runC14(e *Engine, r *Report) {
 		}
 	}
 	ruleSnapshotWriterClose(e, r)
-	// ---- streamed chunk payloads are fresh buffers
-	chunkData := e.Field("raftpb", "Chunk", "Data")
-	if onb := r.need("(*internal/rsm.ChunkWriter).onNewBlock"); onb != nil && chunkData != nil {
-		cnt := 0
-		forEachInstr(onb, func(in ssa.Instruction) {
-			st, ok := in.(*ssa.Store)
-			if !ok {
-				return
-			}
-			f, _, ok := fieldOfAddr(st.Addr)
-			if !ok || f != chunkData {
-				return
-			}
-			cnt++
-			// trace the append chain to its base
-			okBase := true
-			seen := map[ssa.Value]bool{}
-			var walk func(v ssa.Value)
-			walk = func(v ssa.Value) {
-				if seen[v] {
-					return
-				}
-				seen[v] = true
-				switch x := v.(type) {
-				case *ssa.Phi:
-					for _, ed := range x.Edges {
-						walk(ed)
-					}
-				case *ssa.Call:
-					if b, ok := x.Call.Value.(*ssa.Builtin); ok && b.Name() == "append" {
-						walk(x.Call.Args[0])
-						return
-					}
-					// a function result (getHeader): fresh
-				case *ssa.MakeSlice:
-				case *ssa.Slice:
-					walk(x.X)
-				case *ssa.Parameter:
-					okBase = false
-				case *ssa.Const:
-				default:
-					if _, _, isF := loadedField(v); isF {
-						okBase = false
-					}
-				}
-			}
-			walk(st.Val)
-			r.check(okBase, "OWN-chunk-payload", "chunk payload in "+fname(onb)+" is a fresh buffer", e.ipos(in),
-				"each chunk owns its bytes until the sink consumed it", "the chunk payload is appended onto the caller's block buffer: the next block overwrites chunks still queued in an asynchronous sink")
-		})
-		r.floor("OWN-chunk-payload", cnt, 1)
-	}
-	// BlockWriter hands out its internal buffer only to onNewBlock synchronously: the callee must copy (above)
+	ruleChunkPayloadFresh(e, r)
 	_ = strings.Contains
 	// deferred close/sync errors reach the caller (generic.go)
 	ruleDeferredErr(e, r, 1, "internal/rsm")
